@@ -385,6 +385,10 @@ class Interp(object):
                     c.props.setdefault(item.name, [None, None])[0] = SFunc(item, m, env, c, name=item.name + '.getter')
                 elif decos and isinstance(decos[0], ast.Attribute) and decos[0].attr == 'setter':
                     c.props.setdefault(item.name, [None, None])[1] = SFunc(item, m, env, c, name=item.name + '.setter')
+                elif decos and len(decos) == 1 and isinstance(decos[0], ast.Name) and decos[0].id in ('staticmethod', 'classmethod'):
+                    f = SFunc(item, m, env, c)
+                    f.binding = decos[0].id
+                    c.attrs[item.name] = f
                 elif decos:
                     raise Unsupported('decorator on %s.%s' % (node.name, item.name))
                 else:
@@ -1535,6 +1539,11 @@ class Interp(object):
             ok, v = self.class_attr(obj.cls, name) if isinstance(obj.cls, SClass) else (False, None)
             if ok:
                 if isinstance(v, SFunc):
+                    b = getattr(v, 'binding', None)
+                    if b == 'staticmethod':
+                        return v
+                    if b == 'classmethod':
+                        return SBound(v, obj.cls)
                     return SBound(v, obj)
                 return v
             if name == '__class__':
@@ -1543,6 +1552,8 @@ class Interp(object):
         if isinstance(obj, SClass):
             ok, v = self.class_attr(obj, name)
             if ok:
+                if isinstance(v, SFunc) and getattr(v, 'binding', None) == 'classmethod':
+                    return SBound(v, obj)
                 return v
             if name == '__name__':
                 return obj.name
@@ -1612,6 +1623,8 @@ class Interp(object):
             raise Unsupported('attribute %s of an opaque object' % name)
         if is_num(obj) or isinstance(obj, (tuple, bool)):
             raise SymRaise('AttributeError', name)
+        if isinstance(obj, SBuiltin) and obj.bound is None and obj.name == 'builtins.dict' and name == 'fromkeys':
+            return SBuiltin('dict.fromkeys')
         raise Unsupported('getattr(%r, %s)' % (obj, name))
 
     def setattr(self, obj, name, v):
